@@ -46,14 +46,14 @@ type distEnv struct {
 	// account (put there through a grant before anything used the module account): paying it
 	// fails like any other refused transfer, the coins stay booked
 	occupiedModule string
-	mainAddr        string
-	keeper          distkeeper.Keeper
-	model           *model.Distributor
-	subs            []model.DSub
-	receipts        map[string]model.Coins // address or BURN -> cumulative gross receipts from main
-	assigned        map[string]model.Coins // destination key -> cumulative amounts reported by Distribution events
-	block           int
-	time            time.Time
+	mainAddr       string
+	keeper         distkeeper.Keeper
+	model          *model.Distributor
+	subs           []model.DSub
+	receipts       map[string]model.Coins // address or BURN -> cumulative gross receipts from main
+	assigned       map[string]model.Coins // destination key -> cumulative amounts reported by Distribution events
+	block          int
+	time           time.Time
 }
 
 func distOpts(e *distEnv, alias bool) gen.DistOpts {
